@@ -4,7 +4,7 @@
    trivia); declarations and statements are decided by the search (see tools/props/C01.py). *)
 From Coq Require Import List NArith Bool String Arith.
 From Verif Require Import Base.Res Gen.GenTokens Gen.GenPrec Model.Lexer Model.ExprParser Proofs.ExprParserProofs Proofs.ExprInstance.
-From Verif Require Model.StParser Model.DeclParser Model.StInstance Proofs.StExprProofs Proofs.StStmtProofs Proofs.StInstanceProofs Proofs.DeclProofs Proofs.TypeProofs Proofs.DeclInstanceProofs Proofs.LibProofs Proofs.LexSpell Proofs.TextRoundTrip.
+From Verif Require Model.StParser Model.DeclParser Model.StInstance Proofs.StExprProofs Proofs.StStmtProofs Proofs.StInstanceProofs Proofs.DeclProofs Proofs.TypeProofs Proofs.DeclInstanceProofs Proofs.LibProofs Proofs.LexSpell Proofs.TextRoundTrip Proofs.ChainDepth Proofs.ChainInstance.
 Import ListNotations.
 Local Open Scope string_scope.
 
@@ -169,3 +169,14 @@ Example C01_text_check_example :
   TextRoundTrip.text_ok u = true /\ LexSpell.spell_all u = TextRoundTrip.odd_text /\
   match StInstance.parse_fb_text TextRoundTrip.odd_text with StInstance.OParsed l => List.length l = 2%nat | _ => False end.
 Proof. exact TextRoundTrip.odd_text_passes. Qed.
+
+(* Left-associativity, for chains of ANY length: x o x o ... o x with n operators of one level (any binary operator of the
+   regenerated table, x an integer constant) is read as the tree that leans to the left, ((x o x) o x) o ... -- Annex B.3.1.
+   (A corollary of C01_expression_faithful, said for the shape users write most.) *)
+Theorem C01_chain_associates_left : forall k lv o (t x : token) n rest,
+  In (k, lv, o) op_kinds -> t_kind t = k -> t_kind x = KDigits ->
+  follow_lt token binop tok_triv tok_bop lv rest ->
+  exists f0, forall f, f0 <= f ->
+    parse_expr f lv (flat token binop unop leaf (ChainDepth.chain token binop unop leaf t lv o x (LInt (t_text x)) n) ++ rest)
+    = Ok (ChainDepth.left_tree binop unop leaf o (LInt (t_text x)) n, rest).
+Proof. exact ChainInstance.chain_associates_left. Qed.
